@@ -9,7 +9,12 @@
 (* (it multiplies states without adding behaviour).                                           *)
 EXTENDS OdeSystemMC, Json, TLCExt
 VARIABLE log
-Proj == [rows |-> rows', status |-> status', events |-> events', sol |-> sol', dt |-> dt']
+(* which piece answers a dense query (design lookup, OdeSystem!AnswerIdx) at every half tick of the covered range, scalar and array path *)
+LookupTable(pcs) == IF DENSE /\ Len(pcs) > 0
+                    THEN [lo2 |-> Lo2(pcs), scalar |-> [k \in 1..(Hi2(pcs) - Lo2(pcs) + 1) |-> AnswerIdx(pcs, Lo2(pcs) + k - 1, FALSE)],
+                          array |-> [k \in 1..(Hi2(pcs) - Lo2(pcs) + 1) |-> AnswerIdx(pcs, Lo2(pcs) + k - 1, TRUE)]]
+                    ELSE [lo2 |-> 0, scalar |-> << >>, array |-> << >>]
+Proj == [rows |-> rows', status |-> status', events |-> events', sol |-> sol', dt |-> dt', look |-> LookupTable(sol')]
 Entry ==
     CASE last' = "Call" -> <<[k |-> "call", target |-> frames'[1].target, ev |-> frames'[1].evOn, cb |-> frames'[1].cbOn]>>
       [] last' = "CallNoOp" -> <<[k |-> "call", target |-> Cur, ev |-> FALSE, cb |-> FALSE], [k |-> "ret", p |-> Proj]>>
